@@ -230,6 +230,7 @@ func checkC18(eng *Engine, prop, tier string, seed int, t0 time.Time, evPath str
 	}
 	vc.rawPrelude = prelude.String()
 	solveAll([]*VC{vc}, dir, 20, seed, false)
+	defer func() { maybeRecordProofs([]*VC{vc}) }()
 
 	findings := loadFindings(filepath.Join(verif, "known_findings.txt"))
 	nObl, nOK, violations := 0, 0, 0
@@ -319,6 +320,7 @@ func checkC18(eng *Engine, prop, tier string, seed int, t0 time.Time, evPath str
 		"samples":            samples,
 		"bounded_standins":   []map[string]any{{"what": "real tag-driven accessors executed for every registered function x command shape (TestStandin_C18)", "bound": "one generated value per payload type", "subtests_run": standN, "unlisted_failures": standBad}},
 	}
+	noteProofLog(&ev)
 	b, _ := json.MarshalIndent(ev, "", " ")
 	if os.Getenv("VERIF_FINGERPRINT") == "" {
 		os.WriteFile(evPath, b, 0o644)
